@@ -8,6 +8,7 @@ import (
 	"os/exec"
 	"path/filepath"
 	"sort"
+	"strings"
 	"sync"
 	"sync/atomic"
 	"syscall"
@@ -311,6 +312,18 @@ func verifyRecovered(p Prog, dir string, acked, issued int, label string) (int, 
 					return 0, fmt.Errorf("%s: crash inside %s: key %x has a value that is not its pre-drop value", label, kinds[issued-1], k)
 				}
 			}
+			if kinds[issued-1] == "dropprefix" {
+				// keys outside the dropped prefix are untouched by the drop
+				pfx := p.prefixOf(p.stateOp(issued - 1))
+				for k, w := range pre {
+					if bytes.HasPrefix([]byte(k), pfx) {
+						continue
+					}
+					if v, ok := st[k]; !ok || !bytes.Equal(v, w) {
+						return 0, fmt.Errorf("%s: crash inside DropPrefix(%x): key %x outside the prefix lost its value", label, pfx, []byte(k))
+					}
+				}
+			}
 			match = issued - 1
 		} else if match >= 0 {
 			return 0, fmt.Errorf("%s: recovered state equals the state after %d of %d issued commits, but commit %d had been acknowledged (acknowledged commit lost). recovered: %s", label, match, issued, acked, st)
@@ -520,6 +533,39 @@ func TestC08_CrashRecovery(t *testing.T) {
 			}
 			if p.Spec.EncKeyLen > 0 {
 				res.Classes = append(res.Classes, "encrypted")
+			}
+			return res, err
+		})
+}
+
+var wCrashDrop = map[string]int{"txn": 8, "burst": 3, "flush": 3, "compact": 3, "dropprefix": 5, "dropall": 2, "reopen": 1}
+
+func TestC29_CrashDuringDrop(t *testing.T) {
+	all := core.Thorough()
+	core.Run(t, "C29", "crash",
+		"the C08 crash machinery on workloads rich in DropPrefix and DropAll (between transactions, flushes and compactions): the child process is killed at the n-th hook (quick: 6 stratified points per workload incl. the dropall.*/dropprefix.* phases, thorough: every point). Oracle: Open succeeds; a kill between operations leaves a commit-prefix state; a kill inside a drop leaves every key with its pre-drop value or absent, keys outside a dropped prefix untouched; structure intact; further commits work. Non-trivial = the kill landed inside an operation.",
+		func(rt *rapid.T) Prog {
+			return Gen(rt, GenCfg{MinOps: 4, MaxOps: 20, Weights: wCrashDrop, AllowEnc: true, NPoints: 6})
+		},
+		func(p Prog, rec *evid.Rec) (core.Result, error) {
+			cs, err := crashCampaign(p, all, false)
+			res := core.Result{NonTrivial: cs.midOp > 0}
+			rec.Add("crash_points_in_dry_run", cs.points)
+			rec.Add("crashed_runs", cs.runs)
+			drops := 0
+			for s, n := range cs.sites {
+				if s != "" {
+					rec.Add("site:"+s, n)
+				}
+				if strings.HasPrefix(s, "dropall") || strings.HasPrefix(s, "dropprefix") {
+					drops += n
+				}
+			}
+			if drops > 0 {
+				res.Classes = append(res.Classes, "kill_inside_drop")
+			}
+			if cs.midOp > 0 {
+				res.Classes = append(res.Classes, "kill_inside_operation")
 			}
 			return res, err
 		})
